@@ -1245,6 +1245,16 @@ def edge_schemas() -> List[Tuple[str, Schema]]:
                                                          Message("Req", [Field("id", 1, scalar("int64"))])],
       services=[Service("ManyMethods", [Method("Call%02d" % i, TypeRef("message", "", sp, ("Req",)), TypeRef("message", "", sp, ("Big",) if i % 2 else deep_path),
                                                bool(i & 1) and i % 3 == 0, i % 4 == 1) for i in range(24)])])
+    # packages alpha.beta and alpha_beta referenced from one module: both get the import alias __alpha_beta__
+    out.append(("alias-collision-packages", Schema(files=[
+        File(name="ab1.proto", package="alpha.beta", messages=[Message("Point", [Field("x", 1, scalar("int32"))])]),
+        File(name="ab2.proto", package="alpha_beta", messages=[Message("Tree", [Field("n", 1, scalar("int32"))])]),
+        File(name="user.proto", package="omega.v1", imports=["ab1.proto", "ab2.proto"], messages=[
+            Message("Holder", [Field("p", 1, TypeRef("message", "", "alpha.beta", ("Point",))),
+                               Field("t", 2, TypeRef("message", "", "alpha_beta", ("Tree",)))])],
+             services=[Service("AliasSvc", [Method("Watch", TypeRef("message", "", "alpha.beta", ("Point",)), TypeRef("message", "", "alpha_beta", ("Tree",)), True, True),
+                                            Method("Get", TypeRef("message", "", "alpha_beta", ("Tree",)), TypeRef("message", "", "alpha.beta", ("Point",)))])]),
+    ], features={"edge.alias-collision-packages": 1})))
     # field names that differ only in case / underscores but are accepted by protoc
     S("field-recase-collision", "edge.fieldrecase", msgs=[
         Message("M", [Field("HTTPCode", 1, scalar("int32")), Field("http_code", 2, scalar("int32"))]),
